@@ -60,42 +60,60 @@ struct DagDumper {
     return "unknown";
   }
 
-  // offsets of the symbols in the flattened environment
-  std::string dump(const ExprNode& root, const Array<const ExprSymbol>& args) {
+  // body of one node; `idof` gives the id of an argument node
+  std::string body(const ExprNode& e, const std::map<const ExprNode*, int>& off, std::function<int(const ExprNode&)> idof) {
+    std::ostringstream s;
+    if (const ExprSymbol* sy = dynamic_cast<const ExprSymbol*>(&e)) {
+      auto f = off.find(sy); s << "v:" << (f == off.end() ? -1 : f->second);
+    } else if (const ExprConstant* c = dynamic_cast<const ExprConstant*>(&e)) {
+      std::string m = mtok(c->get()); s << "k:" << m.substr(m.find('.', m.find('.') + 1) + 1);
+    } else if (const ExprIndex* ix = dynamic_cast<const ExprIndex*>(&e)) {
+      int a = idof(ix->expr);
+      s << "i:" << a << ":" << ix->index.first_row() << ":" << ix->index.last_row() << ":" << ix->index.first_col() << ":" << ix->index.last_col();
+    } else if (const ExprVector* v = dynamic_cast<const ExprVector*>(&e)) {
+      std::vector<int> as; for (int i = 0; i < v->nb_args; i++) as.push_back(idof(v->arg(i)));
+      s << "V:" << (v->row_vector() ? "row" : "col") << ":"; for (size_t i = 0; i < as.size(); i++) { if (i) s << "."; s << as[i]; }
+    } else if (const ExprChi* ch = dynamic_cast<const ExprChi*>(&e)) {
+      int a = idof(ch->arg(0)), b = idof(ch->arg(1)), c2 = idof(ch->arg(2)); s << "c:" << a << ":" << b << ":" << c2;
+    } else if (const ExprApply* ap = dynamic_cast<const ExprApply*>(&e)) {
+      std::vector<int> as; for (int i = 0; i < ap->nb_args; i++) as.push_back(idof(ap->arg(i)));
+      int fid = fun_id(ap->func);
+      s << "a:" << fid << ":"; for (size_t i = 0; i < as.size(); i++) { if (i) s << "."; s << as[i]; }
+    } else if (const ExprPower* p = dynamic_cast<const ExprPower*>(&e)) {
+      int a = idof(p->expr); s << "p:" << a << ":" << p->expon;
+    } else if (const ExprUnaryOp* u = dynamic_cast<const ExprUnaryOp*>(&e)) {
+      int a = idof(u->expr); s << "u:" << un_name(*u) << ":" << a;
+    } else if (const ExprBinaryOp* b = dynamic_cast<const ExprBinaryOp*>(&e)) {
+      int l = idof(b->left), r2 = idof(b->right); s << "b:" << bin_name(*b) << ":" << l << ":" << r2;
+    } else s << "unknown";
+    s << "@" << e.dim.nb_rows() << "." << e.dim.nb_cols();
+    return s.str();
+  }
+  static std::map<const ExprNode*, int> offsets(const Array<const ExprSymbol>& args) {
     std::map<const ExprNode*, int> off; int o = 0;
     for (int i = 0; i < args.size(); i++) { off[&args[i]] = o; o += args[i].dim.size(); }
+    return off;
+  }
+  // post-order dump (arguments first)
+  std::string dump(const ExprNode& root, const Array<const ExprSymbol>& args) {
+    std::map<const ExprNode*, int> off = offsets(args);
     std::map<const ExprNode*, int> id; std::vector<std::string> out;
     std::function<int(const ExprNode&)> go = [&](const ExprNode& e) -> int {
       auto it = id.find(&e); if (it != id.end()) return it->second;
-      std::ostringstream s;
-      if (const ExprSymbol* sy = dynamic_cast<const ExprSymbol*>(&e)) {
-        auto f = off.find(sy); s << "v:" << (f == off.end() ? -1 : f->second);
-      } else if (const ExprConstant* c = dynamic_cast<const ExprConstant*>(&e)) {
-        s << "k:" << mtok(c->get()).substr(mtok(c->get()).find('.', mtok(c->get()).find('.') + 1) + 1);
-      } else if (const ExprIndex* ix = dynamic_cast<const ExprIndex*>(&e)) {
-        int a = go(ix->expr);
-        s << "i:" << a << ":" << ix->index.first_row() << ":" << ix->index.last_row() << ":" << ix->index.first_col() << ":" << ix->index.last_col();
-      } else if (const ExprVector* v = dynamic_cast<const ExprVector*>(&e)) {
-        std::vector<int> as; for (int i = 0; i < v->nb_args; i++) as.push_back(go(v->arg(i)));
-        s << "V:" << (v->row_vector() ? "row" : "col") << ":"; for (size_t i = 0; i < as.size(); i++) { if (i) s << "."; s << as[i]; }
-      } else if (const ExprChi* ch = dynamic_cast<const ExprChi*>(&e)) {
-        int a = go(ch->arg(0)), b = go(ch->arg(1)), c2 = go(ch->arg(2)); s << "c:" << a << ":" << b << ":" << c2;
-      } else if (const ExprApply* ap = dynamic_cast<const ExprApply*>(&e)) {
-        std::vector<int> as; for (int i = 0; i < ap->nb_args; i++) as.push_back(go(ap->arg(i)));
-        int fid = fun_id(ap->func);
-        s << "a:" << fid << ":"; for (size_t i = 0; i < as.size(); i++) { if (i) s << "."; s << as[i]; }
-      } else if (const ExprPower* p = dynamic_cast<const ExprPower*>(&e)) {
-        int a = go(p->expr); s << "p:" << a << ":" << p->expon;
-      } else if (const ExprUnaryOp* u = dynamic_cast<const ExprUnaryOp*>(&e)) {
-        int a = go(u->expr); s << "u:" << un_name(*u) << ":" << a;
-      } else if (const ExprBinaryOp* b = dynamic_cast<const ExprBinaryOp*>(&e)) {
-        int l = go(b->left), r2 = go(b->right); s << "b:" << bin_name(*b) << ":" << l << ":" << r2;
-      } else s << "unknown";
-      s << "@" << e.dim.nb_rows() << "." << e.dim.nb_cols();
-      int me = (int)out.size(); out.push_back(s.str()); id[&e] = me; return me;
+      std::string b = body(e, off, go);
+      int me = (int)out.size(); out.push_back(b); id[&e] = me; return me;
     };
     go(root);
     std::string r; for (size_t i = 0; i < out.size(); i++) { if (i) r += ","; r += out[i]; } return r;
+  }
+  // dump in the order of the compiled function: node of rank n-1 first, root (rank 0) last,
+  // so that "last to first" is exactly the order of ibex's backward sweeps
+  std::string dump_ranked(const Function& f) {
+    std::map<const ExprNode*, int> off = offsets(f.args());
+    int n = f.nb_nodes(); std::string r;
+    std::function<int(const ExprNode&)> idof = [&](const ExprNode& e) -> int { return n - 1 - f.nodes.rank(e); };
+    for (int i = n - 1; i >= 0; i--) { if (i != n - 1) r += ","; r += body(f.node(i), off, idof); }
+    return r;
   }
   int fun_id(const Function& f) {
     auto it = fun_ids.find(&f); if (it != fun_ids.end()) return it->second;
@@ -112,6 +130,7 @@ struct DagDumper {
 
 inline std::string dump_expr(const ExprNode& root, const Array<const ExprSymbol>& args) { DagDumper d; return d.full(root, args); }
 inline std::string dump_fun(const Function& f) { return dump_expr(f.expr(), f.args()); }
+inline std::string dump_fun_ranked(const Function& f) { DagDumper d; std::string m = d.dump_ranked(f); std::string r; for (auto& t : d.fun_tokens) { r += t; r += "!"; } return r + m; }
 
 // ---- random typed expressions -----------------------------------------------------------------
 struct GenCfg {
